@@ -613,6 +613,41 @@ Proof.
   cbn [option_map]. destruct (path_eqb q b); reflexivity.
 Qed.
 
+(* success of an update at an existing path *)
+Lemma upd_list_ok g nm l v r : assoc nm l = Some v -> g (Some v) = Ok r -> exists l', upd_list g nm l = Ok l'.
+Proof.
+  induction l as [|[k w] l IH]; cbn [assoc upd_list]; [discriminate|].
+  destruct (bytes_eqb k nm).
+  - intros E G. inversion E; subst. rewrite G. destruct r; eexists; reflexivity.
+  - intros E G. destruct (IH E G) as [l' ->]. eexists; reflexivity.
+Qed.
+
+Lemma update_ok p f : forall n tgt r, resolve p n = Ok tgt -> f (Some tgt) = Ok r ->
+  exists o', update p f (Some n) = Ok o' /\ (p <> [] -> o' <> None).
+Proof.
+  induction p as [|nm rest IH]; intros n tgt r R F; cbn [resolve update] in *.
+  - inversion R; subst. exists r. split; [exact F|congruence].
+  - destruct n as [m l| |]; try discriminate. destruct (assoc nm l) as [c|] eqn:A; [|discriminate].
+    destruct (IH _ _ _ R F) as (o'' & U & _).
+    destruct (upd_list_ok (update rest f) nm l c o'' A U) as [l' ->].
+    eexists. split; [reflexivity|discriminate].
+Qed.
+
+Lemma upd_ok p f s tgt r : p <> [] -> resolve p s = Ok tgt -> f (Some tgt) = Ok r -> exists s', upd p f s = Ok s'.
+Proof.
+  intros Hp R F. destruct (update_ok p f s tgt r R F) as (o' & U & N). unfold upd. rewrite U.
+  destruct o'; [eexists; reflexivity|]. exfalso. now apply N.
+Qed.
+
+(* unlinking an existing non-directory succeeds *)
+Lemma unlink_ok p s : p <> [] -> (exists e, stat p s = Some e /\ is_dir (Some e) = false) -> exists s', unlink p s = Ok s'.
+Proof.
+  intros Hp (e & S & N). unfold stat, lookup in S. destruct (resolve p s) as [n|er] eqn:R; [|discriminate].
+  destruct n as [m l|m b|m t]; cbn in S; inversion S; subst; try discriminate.
+  - eapply upd_ok; eauto.
+  - eapply upd_ok; eauto.
+Qed.
+
 (* crash states: the initial state, and closed under taking a longer prefix *)
 Lemma crash_states_init ops s : In s (crash_states ops s).
 Proof. destruct ops; left; reflexivity. Qed.
